@@ -428,6 +428,10 @@ impl DOP853 {
                 deno = 1.0;
             }
             err = h.abs() * err * (1.0 / (n as f64 * deno)).sqrt();
+            // A candidate state that is not finite is never accepted (its infinite scale would hide the error)
+            if k5.iter().any(|v| !v.is_finite()) {
+                err = Float::INFINITY;
+            }
 
             // Computation of hnew
             fac11 = err.powf(expo1);
